@@ -327,6 +327,14 @@ theorem vdot_adj_spec {cj : K → K} (hc : IsConj cj) (f : List K) (s : Nat → 
 theorem diag_spec (n : Nat) (d : Nat → K) (x : Nat → K) (r : Nat) (hr : r < n) :
     apply (diag n d) x r = d r * x r := by rw [apply_diag]; simp [hr]
 
+/-- DiagonalOperator(diagonal, domain, spaces): pixel-wise product with the diagonal entry found at the sub-index of
+    `c` on `spaces`, where `spaces[i]` carries the diagonal's i-th sub-domain — in ANY order of `spaces`
+    (finding C02-diagonal_permuted_spaces) -/
+theorem diagonalOp_spec (sizes spaces : List Nat) (d : List K) (x : Nat → K) (c : Nat) (hc : c < prodL sizes) :
+    apply (diagonalOp sizes spaces d) x c =
+      d.getD (ravel (spaces.map fun s => sizes.getD s 1) (spaces.map fun s => (unravel sizes c).getD s 0)) 0 * x c := by
+  unfold diagonalOp; rw [diag_spec _ _ _ _ hc]
+
 /-- ConjugationOperator (real-doubled coordinates) is an involution: all four modes coincide -/
 theorem conjugation_involutive (n : Nat) (x : Nat → K) (r : Nat) (hr : r < 2 * n) :
     apply (conjugation n) (apply (conjugation n) x) r = x r := by
